@@ -14,16 +14,49 @@ def _rows(s):
     return parts[0], sorted(parts[1].split("|")) if len(parts) > 1 else []
 
 
+def _readable(op):
+    """SQL text, tables and plan of an op line (see lean/Csvq/Drive/C03.lean for the encoding)"""
+    t = op.split(" ")
+    out = {}
+    try:
+        if t[-1].startswith("#"):
+            out["sql"] = bytes.fromhex(t[-1][1:]).decode("utf-8", "replace")
+            t = t[:-1]
+        i = 2 if t[0] == "c03.q" else 3
+        if t[0] != "c03.q":
+            out["limit_recursion"] = t[2]
+        out["cpu"] = t[1]
+        nv = int(t[i]); vals = [v.split(";")[0] for v in t[i + 1:i + 1 + nv]]; i += 1 + nv
+        nt = int(t[i]); i += 1
+        tables = []
+        for _ in range(nt):
+            nc, nr = int(t[i]), int(t[i + 1]); i += 2
+            rows = [",".join(vals[int(x)] for x in t[i + r * nc:i + (r + 1) * nc]) for r in range(min(nr, 30))]
+            if nr > 30:
+                rows.append("... %d rows in total" % nr)
+            tables.append({"columns": nc, "rows": rows}); i += nc * nr
+        out["tables_in_plan_order"] = tables
+        out["plan"] = " ".join(t[i:])[:3000]
+    except Exception as e:  # never let the report formatting hide the finding
+        out["decode_error"] = repr(e)
+    return out
+
+
 def classify(run):
-    """a model/implementation disagreement is an ORDER mismatch when the two results are equal as multisets"""
+    """a model/implementation disagreement is an ORDER mismatch when the two results are equal as multisets;
+    the failing case is rewritten into a readable form (SQL first)"""
     for p in run.problems:
         if p.kind == "diff" and isinstance(p.detail, dict) and str(p.name).startswith("c03."):
-            cls = "order" if _rows(p.detail.get("impl", "")) == _rows(p.detail.get("model", "")) else "content"
-            p.detail["class"] = cls
+            d = p.detail
+            cls = "order" if _rows(d.get("impl", "")) == _rows(d.get("model", "")) else "content"
+            nd = {"class": cls}
+            nd.update(_readable(d.get("op", "")))
+            for k in ("impl", "model", "op"):
+                v = d.get(k, "")
+                nd[k] = v if len(v) <= 6000 else v[:6000] + "...[truncated; re-run with the same seed for the full line]"
+            nd["stream"] = d.get("stream")
+            p.detail = nd
             p.signature = "diff:%s:%s" % (p.name, cls)
-            for k in ("op", "impl", "model"):
-                if len(p.detail.get(k, "")) > 20000:
-                    p.detail[k] = p.detail[k][:20000] + "…[truncated; re-run with the same seed for the full line]"
 
 
 def run(run):
